@@ -435,6 +435,19 @@ def mon_C10(sc, trace, probes, info):
 def mon_C02(sc, trace, probes, info):
     """activities that become runnable for the same time run in the order in which they were made runnable"""
     out = []
+    # waiters of one lock are served in the order in which they started waiting (each actor asks at most once)
+    reqs, ins = {}, {}
+    for p in probes:
+        if p[0] == 'lock_req':
+            reqs.setdefault(p[1], []).append(p[2])
+        elif p[0] == 'lock_in':
+            ins.setdefault(p[1], []).append(p[2])
+    for l, rq in reqs.items():
+        if len(set(rq)) == len(rq) and len(set(ins.get(l, []))) == len(ins.get(l, [])):
+            served = ins.get(l, [])
+            expect = [a for a in rq if a in served]
+            if served != expect:
+                out.append(('lock %r was entered in the order %r but requested in the order %r' % (l, served, expect), None))
     last = None
     for p in by(probes, 'act'):
         t, seq = p[1], p[5]
